@@ -296,9 +296,8 @@ def judge(ctx, bk, S, pre=""):
                 mlen = np.array([np.linalg.norm(np.array(m) @ basis) for m in missing])
                 if np.all(mlen >= S["sphere"] * (1 - 1e-6) * (1 - 1e-12)):
                     mech = "shell_incomplete:shell_straddles_search_sphere"
-                    if not PENDING:
-                        ctx.count("pending_shell_straddles_search_sphere")
-                        raise harness.Skip("pending finding: shell cut by the search sphere (enlarged kmesh_tol)")
+                    # fired on the unchanged tree, repaired in ccf769b3: judged like every other incomplete shell
+                    ctx.count("shell_at_the_search_sphere_judged")
             ctx.violation(pre + mech,
                           f"shell |b|={r:.9f}: {len(members)} selected, {len(same)} mesh vectors of that length; "
                           f"missing {missing[:6]} (library search box +-{(ssc * mpa).tolist()})",
@@ -465,6 +464,18 @@ def case(ctx, rng, idx, state):
     # ---- documented parameter kmesh_tol, and nearly symmetric cells that make it matter
     r = rng.random()
     near, eps, kt = "exact", 0.0, None
+    sphere_class = (idx % 25 == 7)
+    if sphere_class:
+        # a shell exactly on the library's search sphere (radius = search_supercell x longest reciprocal vector): orthorhombic cells
+        # a : b : c = 1 : 1.5 : sqrt(3) have 20 mesh vectors of that length ((4,0,0), (0,6,0), (3,3,3), (0,3,6), (2,0,6), ...); slightly
+        # distorted and with an enlarged kmesh_tol they are one shell, which the cut at the sphere must not split
+        n = int(rng.choice([1, 2, 2, 3]))
+        mp, big = (n, n, n), False
+        a0 = float(rng.uniform(2.0, 5.0))
+        L = np.diag([a0, 1.5 * a0, np.sqrt(3.0) * a0])
+        near, kt = "merged", float(rng.choice([1e-4, 1e-3]))
+        r = 1.0
+        ctx.count("shell_on_the_search_sphere_cases")
     if r < 0.10:       # shells of the symmetric cell split by more than the tie zone of the default kmesh_tol
         near, eps = "split", 10 ** rng.uniform(-4.0, -2.5)
     elif r < 0.20:     # split by less than kmesh_tol/10 of an enlarged kmesh_tol: still one shell
@@ -548,6 +559,8 @@ def case(ctx, rng, idx, state):
     # accepted).  Mostly passed tight, so that B1 is decided at ~1e-8; the default (1e-5) is judged at 1e-5.
     kw = {}
     r = rng.random()
+    if sphere_class:
+        r = 0.9       # a random tolerance: the search has to go on to the outer shells
     if r < 0.55:
         bk_tol = BK_TOL_TIGHT
         kw["bk_complete_tol"] = bk_tol
@@ -665,7 +678,7 @@ def case(ctx, rng, idx, state):
         tmp = None
         try:
             # ---- search_supercell: the set found must be that of the default (shells are tried by increasing radius)
-            if ssc != SEARCH_SUPERCELL and (PENDING or not S["kt_enlarged"]):
+            if ssc != SEARCH_SUPERCELL:
                 kw0 = {k: v for k, v in kw.items() if k != "search_supercell"}
                 try:
                     bk0 = BKVectors.from_kpoints(recip_lattice=recip.copy(), mp_grid=mpa.copy(),
@@ -889,7 +902,7 @@ if __name__ == "__main__":
                            "neighbour_relations_checked", "G_nonzero", "kptirr_subset", "setting_resetting",
                            "setting_sheared", "setting_sheared_cond_gt_20", "lefthanded_lattices", "scaled_cells",
                            "big_anisotropic_meshes", "near_symmetric_split_judged", "near_symmetric_merged_judged",
-                           "near_symmetric_tiny_judged", "kmesh_tol_nondefault_judged",
+                           "near_symmetric_tiny_judged", "kmesh_tol_nondefault_judged", "shell_on_the_search_sphere_cases",
                            "kmesh_tol_merged_shells_decided", "search_supercell_compared_with_default",
                            "argform_varied_calls", "argform_mp_grid_not_array", "inputs_unchanged_checked",
                            "find_bk_vectors_direct_calls", "hist_nnkp_judged", "hist_nnkp_lattice_override_judged",
